@@ -918,8 +918,8 @@ async def live_wiring():
         obs["session_objects_distinct"] = len({id(o) for o in objs}) == 4 and len({id(o.read) for o in objs}) == 4
         # data streams: open a passive connection per client, wait until the server has attached it
         same = []
-        for c in clients:
-            reader, writer = await c.get_passive_connection("I")
+        for c, cmds in zip(clients, (("epsv",), ("pasv",), None)):  # both handlers are exercised
+            reader, writer = await c.get_passive_connection("I", commands=cmds)
             c._c15 = writer
         for _ in range(200):
             if all(cn.future.data_connection.done() for cn in conns):
@@ -954,7 +954,11 @@ async def live_wiring():
 
 
 def check_wiring_live(ctx):
-    exp, flags = wiring_expectations()
+    try:
+        exp, flags = wiring_expectations()
+    except Exception as e:  # translator failed closed: the oracle below must still run on the live objects
+        exp, flags = None, {}
+        ctx.obligation_broken("wiring-translator", repr(e)[:400])
     loop = asyncio.new_event_loop()
     try:
         obs = loop.run_until_complete(asyncio.wait_for(live_wiring(), 30))
@@ -964,6 +968,12 @@ def check_wiring_live(ctx):
     ctx.extra["wiring_live"] = obs
     ctx.sample({"stream": "wiring", "observed": obs})
 
+    if exp is not None:
+        _wiring_tie(ctx, exp, flags, obs)
+    _wiring_oracle(ctx, obs)
+
+
+def _wiring_tie(ctx, exp, flags, obs):
     # (1) tie: what the translator says vs what the objects are
     def tag_of(site, key):
         return exp.get(site, {}).get("entries", {}).get(key)
@@ -985,6 +995,9 @@ def check_wiring_live(ctx):
     ctx.case(("wiring-tie", "data"))
     if all(x is True for x in obs["data_dict_is_control_dict"]) != data_same:
         ctx.disagree("wiring", "data_dict_is_control_dict", {"translator_expects": data_same}, {"observed": obs["data_dict_is_control_dict"]})
+
+
+def _wiring_oracle(ctx, obs):
     # (2) oracle: what the property needs
     need = {
         "server_global_same_object_everywhere": "the server-wide limit is not one object shared by all sessions (it would not bound their sum)",
